@@ -33,6 +33,7 @@ CONFIGS = {
         dict(name="wrapped", MaxItems=8, MaxDepth=3, Reps="{1}", FVariants='{"plain", "prefix"}', SVariants='{"plain"}', CVariants='{"if"}', Allowed='{"F","K","W","X","S"}', layouts=[0]),
         # a call-wrapped class inside a method of a call-wrapped class: the nested header search two levels deep
         dict(name="wrapped2", MaxItems=11, MaxDepth=4, Reps="{1, 6}", FVariants='{"plain"}', SVariants='{"plain"}', CVariants='{"if"}', Allowed='{"F","K","W","X","S"}', layouts=[0], only_wrapped=2),
+        dict(name="blocks", MaxItems=7, MaxDepth=3, Reps="{1}", FVariants='{"plain"}', SVariants='{"plain"}', CVariants='{"if"}', Allowed='{"F","K","G","X","S"}', layouts=[0]),
         dict(name="thresholds", MaxItems=4, MaxDepth=2, Reps="{1, 13, 14, 15, 16, 28, 29, 30, 31, 58, 59, 60, 61, 75}", FVariants='{"plain"}', SVariants='{"plain"}', CVariants='{"if"}', Allowed='{"F","X","S"}', layouts=[0]),
     ],
     "thorough": [
@@ -41,6 +42,7 @@ CONFIGS = {
         dict(name="depth", MaxItems=11, MaxDepth=5, Reps="{1}", FVariants='{"plain"}', SVariants='{"plain"}', CVariants='{"if"}', Allowed='{"F","X","S"}', layouts=[0, 2]),
         dict(name="mixed", MaxItems=7, MaxDepth=3, Reps="{2}", FVariants='{"plain", "arrow", "lineabove", "prefix"}', SVariants='{"plain"}', CVariants='{"try", "loop"}', Allowed='{"F","K","C","E","X","S","R"}', layouts=[1, 2]),
         dict(name="wrapped", MaxItems=9, MaxDepth=4, Reps="{1, 2}", FVariants='{"plain", "prefix", "multi"}', SVariants='{"plain"}', CVariants='{"if"}', Allowed='{"F","K","W","X","S"}', layouts=[0, 1]),
+        dict(name="blocks", MaxItems=8, MaxDepth=3, Reps="{1, 2}", FVariants='{"plain", "prefix"}', SVariants='{"plain"}', CVariants='{"if"}', Allowed='{"F","K","G","C","X","S"}', layouts=[0, 1]),
         dict(name="thresholds", MaxItems=5, MaxDepth=2, Reps="{1, 2, 13, 14, 15, 16, 28, 29, 30, 31, 58, 59, 60, 61, 75}", FVariants='{"plain", "multi"}', SVariants='{"plain"}', CVariants='{"if"}', Allowed='{"F","X","S"}', layouts=[0]),
     ],
 }
@@ -198,7 +200,7 @@ def classify(prog, lang, clause):
     depth = mx = 0
     st = []
     for it in prog:
-        if it["k"] in "FKCA":
+        if it["k"] in "FKCAG":
             st.append(it["k"])
             mx = max(mx, st.count("F"))
         elif it["k"] == "X":
